@@ -701,7 +701,87 @@ def helper_histories(tier: str):
     return base
 
 
+def exec_stdio_history(ctx, case: Dict[str, Any]) -> None:
+    """send_message on the streams of the real stdio transport: the child answers the request with a run of
+    non-matching messages (possibly more than a stream buffers) followed by the matching response, in one or
+    several writes."""
+    import importlib
+    import json
+    from chuk_mcp.protocol.messages.send_message import send_message
+    from chuk_mcp.transports.stdio.parameters import StdioParameters
+    from vf.recorders import OpenProcessPatch, ScriptedProcess
+    SC = importlib.import_module("chuk_mcp.transports.stdio.stdio_client")
+    rid, n, kinds, pieces = case["id"], case["distractors"], case["kinds"], case["writes"]
+    final_kind = case["final"]
+
+    def factory(command, **kw):
+        p = ScriptedProcess([], hold_open=True)
+        orig = p.stdin.send
+
+        async def send(data):
+            await orig(data)
+            for line in data.split(b"\n"):
+                try:
+                    req = json.loads(line)
+                except Exception:
+                    continue
+                if not (isinstance(req, dict) and req.get("method") == "tools/call"):
+                    continue
+                lines = [json.dumps(_wire(kinds[k % len(kinds)], req["id"], k), ensure_ascii=False) for k in range(n)]
+                lines.append(json.dumps(_wire(final_kind, req["id"], n), ensure_ascii=False))
+                raw = ("\n".join(lines) + "\n").encode("utf-8")
+                step = max(1, len(raw) // pieces)
+                for off in range(0, len(raw), step):
+                    p.feed(raw[off:off + step])
+        p.stdin.send = send
+        return p
+
+    async def main():
+        with OpenProcessPatch(factory):
+            async with SC.stdio_client(StdioParameters(command="scripted")) as (read, write):
+                try:
+                    return ("return", await send_message(read, write, "tools/call", {"name": "t"}, timeout=5.0, message_id=rid))
+                except BaseException as e:  # noqa
+                    if isinstance(e, (KeyboardInterrupt, SystemExit)):
+                        raise
+                    return ("raise", e)
+
+    try:
+        (kind, val), _ = run_virtual(main, max_iterations=2_000_000)
+    except HangDetected as e:
+        ctx.violation("hang", f"stdio history: {e}", case)
+        ctx.record(case, shape="hang")
+        return
+    ctx.count("stdio_histories")
+    ctx.count("receive_events", n + 1)
+    want = _wire(final_kind, rid, n)
+    if final_kind == "match_error":
+        ok = kind == "raise" and getattr(val, "code", None) == want["error"]["code"]
+    else:
+        ok = kind == "return" and strict_eq(val, want["result"])
+    if not ok:
+        mech = "response_lost_behind_other_traffic" if kind == "raise" and "imeout" in type(val).__name__ else "wrong_outcome"
+        ctx.violation(mech, f"through the stdio transport: {n} non-matching messages then the matching {final_kind} in "
+                      f"{pieces} write(s): the call ended with {kind} {val!r}", case)
+    ctx.record(case, shape=[kind, type(val).__name__], nontrivial=n > 0, cls=f"stdio:{'>=100' if n >= 100 else '<100'}",
+               sample={"case": case, "outcome": kind})
+
+
+def stdio_histories(ctx):
+    mixes = [["notification"], ["other_response", "notification", "other_request"], ["same_id_request", "progress", "other_error"],
+             ["int_twin", "notification"]]
+    for n in ((0, 3, 99, 100, 101, 150) if ctx.tier == "quick" else (0, 1, 3, 50, 99, 100, 101, 102, 150, 400, 1000)):
+        for j, kinds in enumerate(mixes):
+            for rid in (("r-1", 7) if ctx.tier == "quick" else ("r-1", 7, "123", 0)):
+                for pieces in (1, 3):
+                    yield {"via": "stdio", "id": rid, "distractors": n, "kinds": kinds, "writes": pieces,
+                           "final": ("match_result", "match_error", "match_scalar")[(n + j) % 3]}
+
+
 def run(ctx):
+    for case in stdio_histories(ctx):
+        if ctx.mine():
+            exec_stdio_history(ctx, case)
     # --- send_message histories ------------------------------------------
     for case in gen_cases(ctx):
         if not ctx.mine():
@@ -728,6 +808,9 @@ def run(ctx):
 
 
 def replay(ctx, case):
+    if case.get("via") == "stdio":
+        exec_stdio_history(ctx, case)
+        return
     if "helper" in case:
         helpers = discover_helpers()
         exec_helper_case(ctx, case["helper"], helpers[case["helper"]],
